@@ -126,3 +126,63 @@ package yqlib
 //@   ensures @nothing-special shOk(runesOf(result))
 //@   loop 1:
 //@     invariant @plain-so-far needsQuoting || (shMode(prefixRunes(value, rangepos())) == 0 && shVal(prefixRunes(value, rangepos())) == prefixRunes(value, rangepos()) && shOk(prefixRunes(value, rangepos())))
+
+// ---------------------------------------------------------------------------------------------
+// expression_postfix.go (shunting yard)
+
+//@ pred isOpener(tt) = tt == openBracket || tt == openCollect || tt == openCollectObject
+//@ pred opTok(t) = t != nil && t.TokenType == operationToken && t.Operation != nil && t.Operation.OperationType != nil
+//@ pred stackTok(t) = t != nil && (opTok(t) || isOpener(t.TokenType))
+//@ pred wfToken(t) = t != nil && (t.TokenType == operationToken || isOpener(t.TokenType) || t.TokenType == closeBracket || t.TokenType == closeCollect || t.TokenType == closeCollectObject) && implies(t.TokenType == operationToken, t.Operation != nil && t.Operation.OperationType != nil) && implies(t.TokenType == closeCollect || t.TokenType == closeCollectObject, len(t.Match) > 0)
+//@ pred stackOK(s) = forall(j, 0, len(s), stackTok(s[j]))
+//@ pred precOK(s) = forall(j, 1, len(s), implies(s[j-1].TokenType == operationToken && s[j].TokenType == operationToken, s[j-1].Operation.OperationType.Precedence <= s[j].Operation.OperationType.Precedence))
+//@ pred resultOK(r) = forall(j, 0, len(r), r[j] != nil && r[j].OperationType != nil)
+//@ pred opTypesSet() = collectOpType != nil && collectObjectOpType != nil && shortPipeOpType != nil && traverseArrayOpType != nil
+
+//@ func popOpToResult
+//@   props C09 C11
+//@   requires len(opStack) > 0 && opStack[len(opStack)-1] != nil
+//@   ensures @stack-popped result0 == opStack[0:len(opStack)-1]
+//@   ensures @op-appended len(result1) == len(result) + 1 && result1[len(result)] == opStack[len(opStack)-1].Operation
+//@   ensures @prefix-kept forall(j, 0, len(result), result1[j] == result[j])
+
+//@ func validateNoOpenTokens
+//@   props C09 C11
+//@   requires token != nil
+//@   ensures (result == nil) == !isOpener(token.TokenType)
+
+//@ func (*expressionPostFixerImpl).ConvertToPostfix
+//@   props C09 C11
+//@   noframe
+//@   requires @tokens-wellformed forall(i, 0, len(infixTokens), wfToken(infixTokens[i]))
+//@   requires @optypes-initialised opTypesSet()
+//@   ensures @ops-wellformed implies(result1 == nil, resultOK(result0))
+//@   loop 1:
+//@     invariant @stack stackOK(opStack)
+//@     invariant @prec {C09} precOK(opStack)
+//@     invariant @result resultOK(result)
+//@     invariant @tokens forall(j, 0, len(tokens), wfToken(tokens[j]))
+//@   loop 2:
+//@     invariant @stack stackOK(opStack)
+//@     invariant @prec {C09} precOK(opStack)
+//@     invariant @result resultOK(result)
+//@     decreases len(opStack)
+//@   loop 3:
+//@     invariant @stack stackOK(opStack)
+//@     invariant @prec {C09} precOK(opStack)
+//@     invariant @result resultOK(result)
+//@     decreases len(opStack)
+//@   loop 4:
+//@     invariant @stack stackOK(opStack)
+//@     invariant @prec {C09} precOK(opStack)
+//@     invariant @result resultOK(result)
+//@     decreases len(opStack)
+
+// ---------------------------------------------------------------------------------------------
+// debug-string helpers: they only read (their bodies are checked against "modifies nothing")
+
+//@ func (*token).toString
+//@   props C11
+
+//@ func (*Operation).toString
+//@   props C11
